@@ -35,6 +35,7 @@ BoolT == Cls(NM.bool, <<>>)
 EmptyMap == [x \in {} |-> Bot]
 
 Kind(t) == IF t.k = "P" THEN "C" ELSE t.k
+Ops == INSTANCE HOperands
 RECURSIVE SameT(_, _)
 SameT(A, B) == IF A.k = "V" /\ B.k = "V" THEN A.n = B.n
                ELSE /\ Kind(A) = Kind(B) /\ A.n = B.n /\ Len(A.a) = Len(B.a)
@@ -419,7 +420,12 @@ Step ==
             /\ ts' = Push(ts, IF r = <<>> THEN Bot ELSE r[1].t)
             /\ viol' = viol \cup Chk(r # <<>>, "Resolved.Var", e.name) \cup ChkCapture(e.name, r)
        [] e.ev = "Is" -> /\ UNCHANGED <<scopes, viol>> /\ ts' = Push(Pop(1), BoolT)
-       [] e.ev = "BinOp" -> /\ UNCHANGED <<scopes, viol>> /\ ts' = Push(Pop(2), BoolT)
+       [] e.ev = "BinOp" ->
+            \* operands of a comparison come from one family of comparable built-ins (numbers with numbers, strings with strings, ...),
+            \* those of a logical connective are Booleans; equality is not constrained here
+            /\ UNCHANGED scopes /\ ts' = Push(Pop(2), BoolT)
+            /\ viol' = viol \cup (IF e.kind = "ComparisonExpr" THEN Chk(Ops!ComparableOperands(P.lang, Peek(1), Peek(0)), "OperandsComparable", e.op)
+                                   ELSE IF e.kind = "LogicalExpr" THEN Chk(Ops!BooleanOperands(P.lang, Peek(1), Peek(0)), "OperandsBoolean", e.op) ELSE {})
        [] e.ev = "Cond" ->
             \* the natural type of a conditional is the pair of its branch types (both must fit wherever the conditional is used);
             \* the recorded type is kept for the places that need a single type (receivers)
